@@ -152,7 +152,7 @@ class C03(F.Check):
         'compression configuration here is the default negotiated one; all 256 configurations are C06',
         'close(code=None) (empty Close payload) and a bytearray close reason are executed but not judged beyond frame validity',
     ]
-    expect_sites = ('frame', 'reject', 'rsv1', 'close', 'lane-table', 'len16', 'len64', 'debug-logging')
+    expect_sites = ('frame', 'reject', 'rsv1', 'close', 'lane-table', 'len16', 'len64', 'debug-logging', 'partial-write')
 
     def rule(self, tier):
         return ('one Ready connection per (family, key, negotiated); every call in the family is made at Ready and its wire delta is decoded. '
@@ -178,6 +178,7 @@ class C03(F.Check):
                              'key': key.hex(), 'neg': neg, 'debug': True})
         for base in range(0, 256, 16):
             jobs.append({'k': 'mask', 'keys': ['%02x%02x%02x%02x' % (k, (k + 1) & 255, (k + 2) & 255, (k + 3) & 255) for k in range(base, base + 16)]})
+        jobs.append({'k': 'partial'})
         cc = close_cases()
         for i in range(0, len(cc), 12):
             jobs.append({'k': 'close', 'range': [i, min(len(cc), i + 12)]})
@@ -344,8 +345,53 @@ class C03(F.Check):
             out.append((run, records, problems, outcomes, spec))
         return out
 
+    def partial_writes(self, res):
+        """A sendall that is interrupted after k bytes (EINTR / EAGAIN / EPIPE): the call may fail, but if it returns normally
+        the wire must hold exactly one valid frame for it."""
+        import errno
+        apis = [('send_text', ('interrupted text',), TEXT), ('send_binary', (bytes(range(200)),), BINARY), ('send_ping', (b'pi',), PING),
+                ('send_pong', (b'po',), PONG)]
+        for api, args, op in apis:
+            for code in (errno.EINTR, errno.EAGAIN, errno.EPIPE):
+                for where in ('none', 'one', 'half', 'all'):
+                    records = []
+
+                    def app(world, ws, e, _api=api, _args=args, _code=code, _where=where):
+                        if e.name != 'ready':
+                            return
+                        size = len(ws.session.__class__.__name__)     # dummy use; the frame size is not known yet
+                        k = {'none': 0, 'one': 1, 'half': 6, 'all': 10 ** 6}[_where]
+                        world.fail_sendall.append((k, OSError(_code, 'interrupted (injected)')))
+                        before = len(world.wire())
+                        try:
+                            getattr(ws, _api)(*_args)
+                            status, err = 'ok', None
+                        except BaseException as error:  # noqa
+                            status, err = 'raised', error
+                        records.append((status, err, world.wire()[before:]))
+                    run = scen.play([], 'one', app=app, world_kwargs={'keys': lambda n, k: b'\x11\x22\x33\x44' if n == 4 else bytes(n)})
+                    res.executions += 1
+                    res.n_transitions += 1
+                    res.covered.add('partial-write')
+                    case = {'k': 'partial', 'api': api, 'errno': code, 'where': where}
+                    for status, err, delta in records:
+                        res.outcomes[repr(('partial', api, where, status, type(err).__name__ if err else ''))] += 1
+                        if status == 'raised':
+                            if not isinstance(err, W.lomond.errors.WebSocketError):
+                                res.violate('C03:%s:partial-write-exception' % api, '%s with an interrupted write raised %r' % (api, err), case)
+                            continue
+                        frames, garbage = ref_ws.decode_client_stream(delta)
+                        if garbage or len(frames) != 1 or frames[0].problems or frames[0].opcode != op:
+                            res.violate('C03:%s:partial-write-accepted' % api,
+                                        '%s returned normally although sendall was interrupted after %s byte(s): wire holds %d frame(s) %s %s'
+                                        % (api, where, len(frames), garbage or '', [f.problems for f in frames]), case)
+
     def run_job(self, job):
         res = F.JobResult()
+        if job['k'] == 'partial':
+            self.partial_writes(res)
+            res.samples.append({'partial_writes': 'EINTR/EAGAIN/EPIPE after 0, 1, 6, all bytes for 4 APIs'})
+            return res
         for (run, records, problems, outcomes, case) in self.run_spec(job):
             res.executions += len(records)
             res.states.add(F.hs(('conn', repr(sorted(case.items())))))
@@ -382,6 +428,10 @@ class C03(F.Check):
 
     def replay(self, case, verbose=True):
         out = []
+        if case['k'] == 'partial':
+            res = F.JobResult()
+            self.partial_writes(res)
+            return [v for v in res.violations if v.case == case]
         if case['k'] == 'close':
             idx = [i for i, c in enumerate(close_cases()) if c[0] == case['label']]
             spec = {'k': 'close', 'range': [idx[0], idx[0] + 1]}
